@@ -158,6 +158,11 @@ def run(chk):
         T = int(rng.integers(3, 9))
         kx = int(rng.choice([1, 1, 2, 3]))
         X = rng.integers(0, 4, (T, kx)).astype(float) if rng.random() < 0.5 else rng.standard_normal((T, kx))
+        r_dt = rng.random()
+        if r_dt < 0.15:
+            X = rng.integers(0, 6, (T, kx))                   # integer-typed counts (the surrogate VALUES are still arbitrary floats)
+        elif r_dt < 0.25:
+            X = X.astype(np.float32)
         Y = rng.standard_normal((T, 1))
         Z = None if rng.random() < 0.4 else rng.standard_normal((T, int(rng.integers(1, 3))))
         rk = str(rng.choice(["int", "generator", "none"], p=[0.45, 0.45, 0.1]))
